@@ -1,6 +1,7 @@
 package diff
 
 import (
+	"errors"
 	"encoding/json"
 	"fmt"
 	"sort"
@@ -318,6 +319,70 @@ type RecScenario struct {
 	Cols  int        `json:"cols"` // number of columns
 	T1    [][]string `json:"t1"`
 	T2    [][]string `json:"t2"`
+	// Huge > 0: the rows are not listed but generated (hugePair): a pair of tables of more than Huge full blocks,
+	// i.e. with a table index of more than Huge entries (the table index is a block object of its own)
+	Huge int `json:"huge"`
+}
+
+// hugePair: t1 = n = huge*255 + 77 rows with sequential keys; t2 = t1 with keys removed, added and modified at the
+// first and last rows of blocks near the start, around block 255 / 1024 (where counters and capacities of one byte /
+// 1024 entries end), in the middle and at the end.  Rows are handed over in descending order.
+func hugePair(huge int) (t1, t2 [][]string) {
+	n := huge*255 + 77
+	key := func(j int) string { return fmt.Sprintf("h%07d", j) }
+	val := func(j int) string { return fmt.Sprintf("v%d", j%5) }
+	edit := map[int]int{} // 1 = removed in t2, 2 = modified in t2, 3 = a key added after it in t2
+	for _, b := range []int{0, 1, 254, 255, 256, 1023, 1024, 1025, huge / 2, huge - 1, huge} {
+		if b > huge {
+			continue
+		}
+		base := b * 255
+		for off, e := range map[int]int{0: 1, 1: 2, 2: 3, 252: 3, 253: 2, 254: 1} {
+			if j := base + off; j < n {
+				edit[j] = e
+			}
+		}
+	}
+	edit[n-1] = 2
+	for j := n - 1; j >= 0; j-- {
+		t1 = append(t1, []string{key(j), val(j)})
+		switch edit[j] {
+		case 1:
+		case 2:
+			t2 = append(t2, []string{key(j), val(j) + "'"})
+		case 3:
+			t2 = append(t2, []string{key(j) + "+", "new"}, []string{key(j), val(j)})
+		default:
+			t2 = append(t2, []string{key(j), val(j)})
+		}
+	}
+	return
+}
+
+// compressSame projects a huge pair further: a run of consecutive keys that both tables hold with the same content
+// (for which the definition of a diff, which is key by key, wants no event) becomes ONE abstract key of that kind.
+// An event for any key of the run lands on that key and is rejected as an event for an unchanged row; two of them
+// as a key reported twice.  (TLC takes minutes over sequences of 66,000 entries.)
+func compressSame(ev *TraceEvent) {
+	nr := make([]int, len(ev.T1)+1)
+	var t1, t2 []int
+	prevSame := false
+	for r := 1; r <= len(ev.T1); r++ {
+		same := ev.T1[r-1] != 0 && ev.T1[r-1] == ev.T2[r-1]
+		if !(same && prevSame) {
+			t1, t2 = append(t1, ev.T1[r-1]), append(t2, ev.T2[r-1])
+		}
+		nr[r] = len(t1)
+		prevSame = same
+	}
+	for _, e := range ev.Ev {
+		for f := 1; f <= 3; f++ { // the key, and the keys of the rows the two offsets address
+			if k, ok := e[f].(int); ok && k >= 1 && k < len(nr) {
+				e[f] = nr[k]
+			}
+		}
+	}
+	ev.T1, ev.T2 = t1, t2
 }
 
 // TraceEvent is one NDJSON line for TraceDiff.tla; every field is always present.
@@ -356,13 +421,20 @@ func replayRec(i int, raw []byte) child.Result {
 	if err := json.Unmarshal(raw, &sc); err != nil {
 		return child.Inconclusive(fmt.Errorf("scenario %d: %v", i, err))
 	}
+	if sc.Huge > 0 {
+		sc.T1, sc.T2 = hugePair(sc.Huge)
+	}
 	db := objmock.NewStore()
 	hdr := recHeader(sc.Cols)
+	var t2 *Built
 	t1, err := Build(db, hdr, sc.KC, sc.T1)
-	if err != nil {
-		return child.Inconclusive(err)
+	if err == nil {
+		t2, err = Build(db, hdr, sc.KC, sc.T2)
 	}
-	t2, err := Build(db, hdr, sc.KC, sc.T2)
+	if errors.Is(err, ErrUnreadable) {
+		// no diff of this pair can be had: its operands cannot be fetched
+		return child.Fail("diff/operand-unreadable/recorded", map[string]interface{}{"error": err.Error(), "shape": sc.Shape, "rows1": len(sc.T1), "rows2": len(sc.T2)})
+	}
 	if err != nil {
 		return child.Inconclusive(err)
 	}
@@ -399,6 +471,9 @@ func replayRec(i int, raw []byte) child.Result {
 	}
 	for _, p := range Project(u, t1, t2, evs) {
 		ev.Ev = append(ev.Ev, []interface{}{p.Kind, p.Key, p.AtOff, p.AtOld})
+	}
+	if sc.Huge > 0 {
+		compressSame(&ev)
 	}
 	// side channel to the driver, which assembles the trace file (one reset line
 	// before every pair) for TraceDiff.tla
